@@ -182,6 +182,36 @@ pub fn run(opts: &Opts) -> i32 {
             ("legacy-read-lines-then-all", format!("{pre}! (stdio/read_line) {{ fn a => ! (stdio/write) a {{ ! (stdio/write_line) \"|\" {{\n! (stdio/read_line) {{ fn b => ! (stdio/write) b {{ ! (stdio/write_line) \"|\" {{\n! (stdio/read_all) {{ fn c => ! (stdio/write) c {{ ! (process/exit) 0 }} }} }} }} }} }} }} }}\n")),
             ("mixed-legacy-and-reader", format!("{pre}do reader <- ! (stdio/stdin);\ndo out <- ! (stdio/stdout);\nlet err = {{ fn (code : Int64) (message : String) => ! (process/exit) 100 }} in\n! (stdio/read_line) {{ fn a => ! (stdio/write) a {{ ! (stdio/write_line) \"|\" {{\n! (io/read_line) reader err {{ ! (process/exit) 7 }} {{ fn l =>\n! (io/write_all) out l err {{ ! (stdio/write_line) \"|\" {{\n! (stdio/read_int) {{ ! (process/exit) 8 }} {{ fn n => ! (process/exit) n }} }} }} }} }} }} }}\n")),
         ];
+        // first-match semantics: arms that overlap at run time (a catch-all after constructor arms,
+        // a nested pattern before its generalisation, tuple patterns, copattern clauses); the
+        // expected exit codes are worked out by hand and the mirrored machine runs the same program
+        let nat = "def ZNat : VType = data | +Z : Unit | +S : ZNat end that\n";
+        let overlapping: [(&str, String, &str); 5] = [
+            ("nested-before-general", format!("{pre}begin\n{nat}def ! classify (n : ZNat) : Ret Int64 = match n | +Z() => ret 0 | +S(+Z()) => ret 1 | +S(m) => ret 2 | _ => ret 3 end that\ndo a <- ! classify +Z(); do b <- ! classify +S(+Z()); do c <- ! classify +S(+S(+Z()));\ndo b10 <- ! (int64/mul) b 10; do c100 <- ! (int64/mul) c 100; do ab <- ! (int64/add) a b10; do r <- ! (int64/add) ab c100; ! (process/exit) r\nend\n"), "exit:210"),
+            ("catch-all-first", format!("{pre}begin\n{nat}def ! f (n : ZNat) : Ret Int64 = match n | _ => ret 7 | +Z() => ret 1 | +S(m) => ret 2 end that\ndo r <- ! f +Z(); ! (process/exit) r\nend\n"), "exit:7"),
+            ("variable-arm-in-the-middle", format!("{pre}begin\n{nat}def ! f (n : ZNat) : Ret Int64 = match n | +Z() => ret 1 | k => ret 5 | +S(m) => ret 9 end that\ndo a <- ! f +Z(); do b <- ! f +S(+Z()); do b10 <- ! (int64/mul) b 10; do r <- ! (int64/add) a b10; ! (process/exit) r\nend\n"), "exit:51"),
+            ("tuple-patterns", format!("{pre}begin\nlet ZB = data | +T : Unit | +F : Unit end that\ndef ! f (p : ZB * ZB) : Ret Int64 = match p | (+T(), _) => ret 1 | (_, +T()) => ret 2 | _ => ret 3 end that\ndo a <- ! f (+T(), +T()); do b <- ! f (+F(), +T()); do c <- ! f (+F(), +F());\ndo a100 <- ! (int64/mul) a 100; do b10 <- ! (int64/mul) b 10; do ab <- ! (int64/add) a100 b10; do r <- ! (int64/add) ab c; ! (process/exit) r\nend\n"), "exit:123"),
+            ("copattern-clauses", format!("{pre}begin\n{nat}def g : Thk (ZNat -> ZNat -> Ret Int64) = {{ comatch | +Z() +Z() => ret 1 | +Z() m => ret 2 | n +Z() => ret 3 | n m => ret 7 end }} that\ndo a <- ! g +Z() +Z(); do b <- ! g +Z() +S(+Z()); do c <- ! g +S(+Z()) +Z(); do d <- ! g +S(+Z()) +S(+Z());\ndo b10 <- ! (int64/mul) b 10; do c100 <- ! (int64/mul) c 100; do d1000 <- ! (int64/mul) d 1000; do ab <- ! (int64/add) a b10; do cd <- ! (int64/add) c100 d1000; do r <- ! (int64/add) ab cd; ! (process/exit) r\nend\n"), "exit:7321"),
+        ];
+        {
+            let mut session = CompilerSession::default();
+            for (name, text, want) in overlapping {
+                let path = opts.out.join(format!("overlap-{name}.zy"));
+                let (class, case) = machine_case(&mut session, &path, Some(&text), b"", &[], fuel);
+                sink.count(&format!("overlap_program_{}", class.split(':').next().unwrap_or("")));
+                match case {
+                    | Some((req, ans)) => {
+                        let end = ans.split(' ').next().unwrap_or("").to_string();
+                        if end != want {
+                            sink.violation("c02-first-matching-arm-not-taken", serde_json::json!({"program": name, "expected": want, "end": end, "source": text}));
+                        }
+                        sink.case(&format!("# overlapping arms {name}"), "-");
+                        sink.case(&req, &ans);
+                    }
+                    | None => sink.violation("harness-host-program-rejected", serde_json::json!({"program": name, "class": class, "source": text})),
+                }
+            }
+        }
         let worlds: [&[u8]; 10] = [
             b"", b"\n", b"alpha\n\nbeta\n", b"\r\nx\n", b"a\r\n\r\nb", b"12\n-3\n\n+4\nz\n5\n", b"\xff\xfe\n\n\xc3\n", b"no newline",
             b"\n\n\n", b"1\r\n22\r\n333",
